@@ -71,6 +71,17 @@ def mk(v):
     raise ValueError("bad value %r" % (v,))
 
 
+def enc_ordered(x):
+    """python value -> JSON value keeping the insertion order of dicts (what Densify's look-up table depends on)"""
+    if isinstance(x, dict) or type(x).__name__ in ("LazySparse", "HashableSparse"):
+        return {"d": [[str(k), enc_ordered(y)] for k, y in x.items()]}
+    if isinstance(x, list) and not hasattr(x, "is_batch"):
+        return {"l": [enc_ordered(y) for y in x]}
+    if isinstance(x, tuple):
+        return {"t": [enc_ordered(y) for y in x]}
+    return enc(x)
+
+
 def enc(x):
     """python value -> canonical JSON value (dicts sorted by key)"""
     from coba.primitives import Categorical
@@ -241,6 +252,8 @@ def mk_filter(st, batched_size=None):
         return ef.Unbatch()
     elif f == "finalize":
         flt = ef.Finalize()
+    elif f == "cycle":
+        flt = ef.Cycle(after=st["after"])
     else:
         raise ValueError(f)
     if batched_size:
@@ -313,6 +326,8 @@ class Pipeline:
                     envs = envs.unbatch()
                 elif f == "finalize":
                     envs = envs.filter(mk_filter(st))
+                elif f == "cycle":
+                    envs = envs.cycle(st["after"])
             self.env = envs[0]           # appends BatchSafe(Finalize()) exactly as iteration / experiments do
             return
         from coba.pipes import Pipes
@@ -447,6 +462,65 @@ def step_label(st):
     if f == "noise":
         return "noise(%s)" % ("a" if st.get("a") else "-")
     return f
+
+
+def cycle_expected(st, before):
+    """what Cycle is documented to do (filters.py:575): if the first interaction has rewards and its actions are all strings or exactly
+    the one-hot tuples, every interaction from index `after` on gets its rewards (and feedbacks) rotated by one place
+    (`l[-1%n:] + l[:-1%n]`, n = number of actions of the first interaction); otherwise nothing changes.
+    returns per interaction {"rewards": expected observable or None, "feedbacks": ...}"""
+    first = before[0] if before else None
+    exp = []
+    cyclable = False
+    n = 0
+    if first is not None and "actions" in first and "rewards" in first:
+        acts = list(first["actions"])
+        n = len(acts)
+        onehots = [tuple(1 if j == i else 0 for j in range(n)) for i in range(n)]
+        try:
+            is_onehot = n > 0 and all(isinstance(a, tuple) for a in acts) and all(any(py_eq(a, h) for h in onehots) for a in acts) and all(any(py_eq(a, h) for a in acts) for h in onehots)
+        except Exception:
+            is_onehot = False
+        cyclable = n > 0 and (is_onehot or all(isinstance(a, str) for a in acts))
+    for t, o in enumerate(before):
+        e = {}
+        for key in ("rewards", "feedbacks"):
+            ob = obs_target(o, key)
+            if ob is not None and cyclable and t >= st["after"] and (key == "rewards" or "feedbacks" in first):
+                ob = ob[n - 1:] + ob[:n - 1]
+            e[key] = ob
+        exp.append(e)
+    return exp
+
+
+def compare_cycle(st, before, after, fails, tags, where):
+    """(B) for Cycle: the rewards are the documented rotation, still given by the action; everything else is untouched"""
+    ok = True
+    if len(before) != len(after):
+        fails.append(F("B", "%s: cycle turned %d interactions into %d" % (where, len(before), len(after)), "cycle:stream-length"))
+        return False
+    exp = cycle_expected(st, before)
+    for t, (o, n, e) in enumerate(zip(before, after, exp)):
+        if "actions" in o and not pairwise_distinct(o["actions"]):
+            continue
+        if json.dumps([enc(a) for a in o.get("actions", [])]) != json.dumps([enc(a) for a in n.get("actions", [])]) or json.dumps(enc(o.get("action"))) != json.dumps(enc(n.get("action"))):
+            fails.append(F("B", "%s: interaction %d: cycle changed the actions" % (where, t), "cycle:actions-changed"))
+            ok = False
+        for key in ("rewards", "feedbacks"):
+            got = obs_target(n, key)
+            if not obs_eq(got, e[key]):
+                rotated = e[key] is not None and not obs_eq(e[key], obs_target(o, key))
+                fails.append(F("B", "%s: interaction %d: after cycle(after=%d) the %s of the actions are %s, documented %s (before %s)"
+                               % (where, t, st["after"], key, json.dumps(obs_json(got)), json.dumps(obs_json(e[key])), json.dumps(obs_json(obs_target(o, key)))),
+                               "cycle:%s:%s" % (key, "wrong-rotation" if rotated else "changed-unrotatable")))
+                ok = False
+        for key in ("reward", "probability"):
+            if key in o and (key not in n or not same_num(o[key], n[key])):
+                fails.append(F("B", "%s: interaction %d: cycle changed the logged %s" % (where, t, key), "cycle:logged-%s-changed" % key))
+                ok = False
+    if any(not obs_eq(e["rewards"], obs_target(o, "rewards")) for o, e in zip(before, exp)):
+        tags.append("cycle:rotated")
+    return ok
 
 
 def _action_dicts(inp, with_context=False):
@@ -923,10 +997,12 @@ class Gen:
         if r < 82:
             st = {"f": "noise", "c": self.noise() if self.r.chance(0.4) else None, "a": self.noise() if self.r.chance(0.8) else None, "seed": self.r.choice([1, 1, 2, 7])}
             return st
-        if r < 90:
+        if r < 89:
             if batched:
                 return {"f": "unbatch"}
             return {"f": "batch", "n": self.r.choice([1, 2, 2, 3, 5, None, 0])}
+        if r < 93:
+            return {"f": "cycle", "after": self.r.choice([0, 0, 1, 2])}
         return {"f": "finalize"}
 
     def plain_sparse_schema(self):
@@ -997,6 +1073,8 @@ class Gen:
                 batched = bool(st["n"])
             elif st["f"] == "unbatch":
                 batched = False
+        if sc[0] in ("str", "cat") and not batched and r.chance(0.15):
+            chain.insert(r.below(len(chain) + 1), {"f": "cycle", "after": r.choice([0, 0, 1, 2])})
         if batched and r.chance(0.6):
             chain.append({"f": "unbatch"})
         via = r.wchoice([(60, "filters"), (15, "pipes"), (25, "shortcuts")])
@@ -1007,6 +1085,9 @@ class Gen:
             w = r.choice([None, "lazysparse", "hashable"])
             if w:
                 case["wrap"] = w
+        if case.get("wrap") == "hashable":
+            # HashableSparse views are hashable, the model's dicts are not: Cycle's `set(actions)` would differ
+            case["chain"] = [st if st["f"] != "cycle" else {"f": "flatten"} for st in chain]
         # the same filter objects applied to one or two further sequences
         if reuse and not long_:
             case["more"] = [self.build_stream(P, r.choice([1, 2, 3])) for _ in range(r.choice([1, 1, 2]))]
@@ -1023,13 +1104,13 @@ def _copy(x):
 class C10(Property):
     id = "C10"
     prop_modules = ["CobaVerif.Props.C10"]
-    quick_n, thorough_n, search_n = 4000, 60000, 3000
+    quick_n, thorough_n, search_n = 3000, 60000, 3000
     case_timeout = 60
     workers = 8
     rule = ("streams of 1-3 simulated / IGL / logged interactions over one action schema (scalar, string, Categorical, dense tuple/list incl. nested, "
             "sparse dict, multi-label) with pairwise-distinct actions, rewards as list/tuple/BinaryReward/DiscreteReward (list, dict, permuted, superset)/"
             "HammingReward/L1Reward/plain function, run through chains of 1-4 of Repr(16 mode pairs)/Flatten/Sparsify/Densify(lookup,hashing)/Noise/"
-            "Batch/Unbatch/Finalize built as filter objects, Pipes.join or Environments shortcuts (with the implicit Finalize); "
+            "Cycle(after)/Batch/Unbatch/Finalize built as filter objects, Pipes.join or Environments shortcuts (with the implicit Finalize); "
             "delivered as a materialised list or (30 %) lazily from a generator of fresh objects that are dropped after use, 7 % long streams of 20-60 "
             "interactions with fresh (LazySparse / HashableSparse / dict) action objects each, 15 % with one or two further sequences pushed through "
             "the same filter objects and judged on their own; "
@@ -1041,6 +1122,10 @@ class C10(Property):
         "which of the recorded defects the tree under test still has is detected by replaying the six Lean counterexample witnesses on the real code (Cfg flags)",
         "zlib.crc32 (Densify hashing) and CobaRandom noise values are fed to the model as data: the theorems quantify over all hash functions / noise values",
         "CobaRandom(1).shuffle used by Densify(lookup) is the C05 model's shuffle",
+        "filter objects: the model's claim that only Densify's key table survives a filter() call (filter_stateless_except_lookup, densify_reuse_eq_prior) "
+        "is tied to the code by the reuse cases (same objects, several sequences) and by comparing the object's `_lookup` with densifyRun's final table",
+        "the shape predicates of the injectivity theorems (denseCatShapeB, flattenShapeB) are evaluated by the driver on the real inputs of Repr/Flatten steps "
+        "and their conclusion (the real filter keeps the action set a set) is checked on the real output",
     ]
     assumptions = [
         "actions of one interaction are pairwise distinct under ==; all actions (and the logged action) of a stream follow one schema, as every coba filter assumes (first row decides)",
@@ -1048,10 +1133,20 @@ class C10(Property):
         "torch tensors excluded; reward noise excluded (it changes rewards by design)",
     ]
     partial_theorems = {
-        "chain_aligned": "hypothesis chainHypB = every step's encoding is injective on every action set (distinctB of the new actions), reward functions that a "
-                         "step keeps agree on old and new actions, a BinaryReward's argmax and the logged action are members; evaluated by the driver on every case "
-                         "(reported as hyp, checked against the model's own output as (C)); discharged symbolically for Sparsify (sparsify_aligned), Finalize's "
-                         "wrapping (finalize_wrap_aligned) and scalar categorical actions (repr_scalar_actions_distinct); necessary by design for hashing/noise collisions",
+        "chain_aligned": "hypothesis chainHypB (decidable, evaluated by the driver on every case as `hyp`, checked against the model's output as (C)). "
+                         "Discharged symbolically from explicit shape/injectivity hypotheses for: Sparsify (sparsify_aligned), Finalize's wrapping "
+                         "(finalize_wrap_aligned), Noise (noise_plans_explicit: only `the noisy action lists are sets` is left, necessary by "
+                         "noise_collision_counterexample), scalar categoricals (repr_scalar_actions_distinct), and at the level of the row encoders for Repr on "
+                         "dense rows with top-level categoricals (repr_dense_rows_distinct, all three modes) and Flatten on equally shaped dense rows "
+                         "(flatten_dense_rows_distinct, shape necessary by flatten_shape_counterexample). Still evaluated per case: the passage from the row "
+                         "encoders to the per-interaction plans of Repr/Flatten (splitBy plumbing), Repr on sparse rows and on nested categoricals, Densify's "
+                         "injectivity (its table is proved monotone and equal to keysAsked, but `distinct slots ⇒ distinct SparseDense rows` is not proved), "
+                         "the `keep` cases of Repr('string') on lists and Harden (a congruence of pyEq, not proved)",
+        "pyEq_symm": "proved on the dense fragment (numbers, strings, categoricals, nested lists/tuples); for dicts and SparseDense rows symmetry is "
+                     "checked per case against Python's == in both directions (tag pyEq-checked) but not proved",
+        "pyEq_refl": "proved for values without SparseDense whose dict keys are unique (wfNoLazy); SparseDense rows not covered",
+        "cycle_spec": "Cycle intentionally breaks alignment: its specification is the rotation of the observable by one place; the chain theorem treats a "
+                      "Cycle step that rotates as outside its hypotheses (targetHypB (.rotate _) = false)",
     }
 
     def generate(self, rng, tier):
@@ -1098,6 +1193,9 @@ class C10(Property):
                    [{"f": "repr", "cc": "onehot", "ca": "onehot_tuple"}, {"f": "flatten"}],
                    [{"f": "flatten"}, {"f": "repr", "cc": "string", "ca": "onehot"}, {"f": "sparsify", "c": False, "a": True}],
                    [{"f": "batch", "n": 2}, {"f": "repr", "cc": "onehot", "ca": "onehot"}, {"f": "unbatch"}],
+                   [{"f": "cycle", "after": 0}], [{"f": "cycle", "after": 1}],
+                   [{"f": "repr", "cc": None, "ca": "onehot"}, {"f": "cycle", "after": 0}], [{"f": "cycle", "after": 0}, {"f": "finalize"}],
+                   [{"f": "batch", "n": 2}, {"f": "finalize"}, {"f": "unbatch"}],
                    [{"f": "noise", "c": None, "a": {"kind": "fn", "mul": 1, "add": 3}, "seed": 1}, {"f": "sparsify", "c": True, "a": True}, {"f": "finalize"}]]
         vals = [[3, 1], [5, 2], [-1, 1]]
         for name, acts in sets:
@@ -1189,6 +1287,8 @@ class C10(Property):
         for st in chain:
             tags.append("step:" + st["f"] + (":" + str(st["ca"]) if st["f"] == "repr" else ""))
 
+        if driver is not None:
+            self.check_values(case, fails, tags, driver)
         # the filter objects are built once; every sequence of the case goes through the same objects, one after the other
         pipe_err = None
         try:
@@ -1205,6 +1305,10 @@ class C10(Property):
             model = None
             if driver is not None:
                 model = self.correspond(case, seq, chain, r["steps"], r["impl"], prior, where, fails, tags, driver)
+            if driver is not None:
+                self.check_tables(chain, r["steps"], stepw, prior, where, fails, tags, driver)
+                for st_, before_, after_ in r["steps"]:
+                    self.check_shapes(st_, before_, after_, where, fails, tags, driver)
             for i, st in enumerate(chain):
                 if st["f"] == "densify" and st["m"] == "lookup" and prior.get(i, []) is not None:
                     if i < len(r["steps"]) and not r["impl"]["error"]:
@@ -1217,6 +1321,86 @@ class C10(Property):
             out["more"] = results[1:]
         return out
 
+    def check_values(self, case, fails, tags, driver):
+        """(A) for Python `==` itself: the model's pyEq on the actions (and context) of the first interaction against `==` on the real
+        objects, in both directions; the model's reflexivity / symmetry lemmas are about exactly this relation"""
+        first = case["stream"][0]
+        rows = list(first.get("actions") or [])[:5] + ([first["context"]] if first.get("context") is not None else [])
+        if "rewards" in first and first["rewards"]["k"] == "binary":
+            rows.append(first["rewards"]["argmax"])
+        if not rows:
+            return
+        try:
+            ans = driver.ask({"op": "values", "rows": rows})
+        except Exception as e:
+            tags.append("skipA:values:" + type(e).__name__)
+            return
+        objs = [wrap_sparse(mk(v), case.get("wrap")) for v in rows]
+        tags.append("pyEq-checked")
+        for i, a in enumerate(objs):
+            for j, b in enumerate(objs):
+                if py_eq(a, b) != ans["eq"][i][j]:
+                    fails.append(F("A", "Python `==` on %s and %s is %s, the model's pyEq says %s" % (json.dumps(rows[i])[:150], json.dumps(rows[j])[:150], py_eq(a, b), ans["eq"][i][j]), "A:pyEq"))
+            if ans["wf"][i] and not ans["eq"][i][i]:
+                fails.append(F("C", "pyEq_refl: well-formed value %s is not equal to itself in the model" % json.dumps(rows[i])[:150], "C:pyEq-refl"))
+        for i in range(len(objs)):
+            for j in range(len(objs)):
+                if ans["denseOnly"][i] and ans["denseOnly"][j] and ans["eq"][i][j] != ans["eq"][j][i]:
+                    fails.append(F("C", "pyEq_symm fails in the model on %s / %s" % (json.dumps(rows[i])[:100], json.dumps(rows[j])[:100]), "C:pyEq-symm"))
+
+    def check_shapes(self, st, before, after, where, fails, tags, driver):
+        """the injectivity theorems against the real code: when the model's shape hypothesis (`denseCatShapeB` for Repr,
+        `flattenShapeB` for Flatten) holds for the action set of the first interaction, the real filter must keep it a set"""
+        if not before or "actions" not in before[0] or not before[0]["actions"] or not after or "actions" not in after[0]:
+            return
+        if not ((st["f"] == "repr" and st.get("ca")) or st["f"] == "flatten"):
+            return
+        try:
+            ans = driver.ask({"op": "values", "rows": [enc_ordered(a) for a in before[0]["actions"]]})
+        except Exception:
+            return
+        holds = ans["denseCat"] if st["f"] == "repr" else ans["flatten"]
+        if holds and ans["distinct"]:
+            tags.append("shape-hyp:" + st["f"])
+            if not pairwise_distinct(after[0]["actions"]):
+                fails.append(F("A", where + "%s: the model's shape hypothesis holds for the actions %s but the real filter merged two of them: %s"
+                               % (st["f"], json.dumps([enc(a) for a in before[0]["actions"]])[:300], json.dumps([enc(a) for a in after[0]["actions"]])[:300]),
+                               "A:shape-injective:" + st["f"]))
+
+    def check_tables(self, chain, steps, stepw, prior, where, fails, tags, driver):
+        """(A) for the one piece of state a filter object keeps: Densify's look-up table after this sequence (model: densifyRun's final
+        state / keysAsked; real: the object's `_lookup`)"""
+        for i, st in enumerate(chain):
+            if not (st["f"] == "densify" and st["m"] == "lookup") or i >= len(steps) or prior.get(i, []) is None:
+                continue
+            flt = stepw.filters[i]
+            flt = getattr(flt, "_filter", flt)
+            real = [[str(k), int(v)] for k, v in flt._lookup.items()]
+            if len(real) > 150:
+                continue
+            before = steps[i][1]
+            stream = []
+            for it in before:
+                d = {"context": enc_ordered(it.get("context"))}
+                if "actions" in it:
+                    d["actions"] = [enc_ordered(a) for a in it["actions"]]
+                if "action" in it:
+                    d["action"] = enc_ordered(it["action"])
+                stream.append(d)
+            try:
+                ans = driver.ask({"op": "table", "stream": stream, "chain": [], "n": st["n"], "c": st["c"], "a": st["a"], "prior": prior.get(i, []), "cfg": detect_cfg()})
+            except Exception as e:
+                tags.append("skipA:table:" + type(e).__name__)
+                continue
+            if "error" in ans:
+                tags.append("skipA:table-unmodelled")
+                continue
+            tags.append("table-checked")
+            if ans["table"] != real:
+                fails.append(F("A", where + "Densify look-up table after the sequence: implementation %s, model %s" % (json.dumps(real)[:300], json.dumps(ans["table"])[:300]), "A:densify-table"))
+            if ans["keys"] != densify_keys(st, before):
+                fails.append(F("A", where + "keys asked by Densify: harness %s, model keysAsked %s" % (densify_keys(st, before)[:20], ans["keys"][:20]), "A:densify-keys"))
+
     def eval_sequence(self, case, seq, si, where, pipe, pipe_err, stepw, chain, lazy, fails, tags):
         wrap = case.get("wrap")
         # stepwise run: per-step (B) with blame, oracles for the model, excuses
@@ -1224,12 +1408,19 @@ class C10(Property):
         changed = False
         stop = None          # "fail" | "excused": why the per-step checks ended
         collapsed_at = None
+        cycled = False
         for st, before, after in steps:
             label = step_label(st)
             if any(json.dumps([enc(a) for a in o.get("actions", [])]) != json.dumps([enc(a) for a in n.get("actions", [])]) for o, n in zip(before, after)):
                 changed = True
                 tags.append("changed-by:" + st["f"])
             if stop:
+                continue
+            if st["f"] == "cycle":
+                # Cycle moves rewards on purpose: judged against its own documented effect; afterwards only step-local checks make sense
+                if not compare_cycle(st, before, after, fails, tags, where + "step"):
+                    stop = "fail"
+                cycled = True
                 continue
             r = compare_step(label, before, after, is_lossy(st, before), fails, tags, where + "step", st)
             if not r["ok"]:
@@ -1239,6 +1430,8 @@ class C10(Property):
             elif r["collapsed"] and collapsed_at is None:
                 collapsed_at = label
         plabel = ("lazy-pipeline" if lazy else "pipeline") if not collapsed_at else "collapse@" + collapsed_at
+        if cycled and not stop:
+            stop = "cycled"      # the whole-pipeline comparison with the original is meaningless after a Cycle; (A) still compares everything
         has_target = False
 
         # the real pipeline, lazily composed
